@@ -138,6 +138,7 @@ class Seq:
     b: list[str] = field(default_factory=list, metadata={"type": "Element", "sequence": 1, "namespace": NS_A})
     c: Optional[int] = field(default=None, metadata={"type": "Element"})
     w: list[int] = field(default_factory=list, metadata={"type": "Element", "wrapper": "ws", "name": "w"})
+    rows: list[list[int]] = field(default_factory=list, metadata={"type": "Element", "tokens": True, "name": "row"})
 
 
 @dataclass
@@ -323,6 +324,10 @@ class Gen:
             inner = args[0] if args else object
             if meta.get("tokens"):
                 n = r.randint(0, 3)
+                if typing.get_origin(inner) in (list, tuple):
+                    # a repeating element of token lists: every occurrence holds one or more tokens
+                    item = typing.get_args(inner)[0]
+                    return [[self.prim(item, tokens=True) for _ in range(r.randint(1, 3))] for _ in range(n)]
                 return [self.prim(inner, tokens=True) for _ in range(n)]
             if meta.get("type") == "Wildcard":
                 n = r.randint(0, 3)
